@@ -2,7 +2,10 @@ package props
 
 import (
 	"fmt"
+	"os"
+	"path/filepath"
 	"sort"
+	"strconv"
 	"strings"
 
 	"pgregory.net/rapid"
@@ -39,3 +42,74 @@ func joinKeys(ds []keyed) string {
 }
 
 var _ = fmt.Sprint
+
+// fuzzFiles lists the saved inputs of a native fuzz target: the committed corpus and the crashers kept under replays/<ID>.
+func fuzzFiles(target, id string) []string {
+	var files []string
+	for _, pat := range []string{"testdata/fuzz/" + target + "/*", filepath.Join(os.Getenv("VERIF_DIR"), "harness/props/testdata/fuzz/"+target+"/*"),
+		filepath.Join(os.Getenv("VERIF_DIR"), "replays/"+id+"/*.fuzz"), filepath.Join(os.Getenv("VERIF_REPLAYS_DIR"), id+"/*.fuzz")} {
+		m, _ := filepath.Glob(pat)
+		files = append(files, m...)
+	}
+	sort.Strings(files)
+	var out []string
+	for i, f := range files {
+		if i == 0 || files[i-1] != f {
+			out = append(out, f)
+		}
+	}
+	return out
+}
+
+// readFuzzArgs parses a "go test fuzz v1" corpus file into its arguments (strings, byte slices as strings, unsigned and signed integers).
+func readFuzzArgs(path string) ([]interface{}, bool) {
+	b, err := os.ReadFile(path)
+	if err != nil || !strings.HasPrefix(string(b), "go test fuzz v1") {
+		return nil, false
+	}
+	var out []interface{}
+	for _, line := range strings.Split(string(b), "\n")[1:] {
+		line = strings.TrimSpace(line)
+		if line == "" {
+			continue
+		}
+		open := strings.Index(line, "(")
+		if open < 0 || !strings.HasSuffix(line, ")") {
+			return nil, false
+		}
+		typ, arg := line[:open], line[open+1:len(line)-1]
+		switch typ {
+		case "string", "[]byte":
+			u, err := strconv.Unquote(arg)
+			if err != nil {
+				return nil, false
+			}
+			out = append(out, u)
+		case "uint8", "uint16", "uint32", "uint64", "uint", "byte":
+			if strings.HasPrefix(arg, "'") {
+				r, _, _, err := strconv.UnquoteChar(arg[1:], '\'')
+				if err != nil {
+					return nil, false
+				}
+				out = append(out, uint64(r))
+				continue
+			}
+			v, err := strconv.ParseUint(arg, 0, 64)
+			if err != nil {
+				return nil, false
+			}
+			out = append(out, v)
+		case "int8", "int16", "int32", "int64", "int":
+			v, err := strconv.ParseInt(arg, 0, 64)
+			if err != nil {
+				return nil, false
+			}
+			out = append(out, v)
+		case "bool":
+			out = append(out, arg == "true")
+		default:
+			return nil, false
+		}
+	}
+	return out, true
+}
